@@ -171,6 +171,7 @@ def run_property(pid, tier, seed, repo='/repo', only_deductive=False, timeout=No
                 if lem['name'] == ln:
                     fun_info.append(verify.verify_lemma(ctx, lem))
     import numpy as _np
+    base_contracts = dict(ctx.contracts)      # case modules may bring their own (e.g. abstract) contracts for the same functions
     for cf in P.get('case_functions', []):
         cmod = importlib.import_module(cf['module'])
         ctx.flat_mode = bool(getattr(cmod, 'FLAT_MODE', False))
@@ -216,6 +217,9 @@ def run_property(pid, tier, seed, repo='/repo', only_deductive=False, timeout=No
                 engine_errors.append('canary at the exit of %s not refuted' % rep['function'])
     ctx.flat_mode = False
     ctx.trace_mode = bool(P.get('trace_mode'))
+    # the functions listed for the property are verified against the property's own contracts; contracts brought by case
+    # modules stay available (quantified facts are evaluated lazily at discharge time) unless they clash
+    ctx.contracts.update(base_contracts)
     for f in P['functions']:
         relpath, qual = f['key'].split('::')
         try:
